@@ -486,6 +486,27 @@ func HasPtrOnlyMarshaler(t reflect.Type) bool {
 	return false
 }
 
+var (
+	unmarshalerT     = reflect.TypeOf((*json.Unmarshaler)(nil)).Elem()
+	textUnmarshalerT = reflect.TypeOf((*encoding.TextUnmarshaler)(nil)).Elem()
+)
+
+// HasCustomUnmarshaler: some type reachable from t (or a pointer to it) implements json.Unmarshaler / encoding.TextUnmarshaler.
+func HasCustomUnmarshaler(t reflect.Type) bool {
+	seen := map[reflect.Type]bool{}
+	Closure(t, seen)
+	for x := range seen {
+		if x.Kind() == reflect.Interface {
+			continue
+		}
+		px := reflect.PtrTo(x)
+		if x.Implements(unmarshalerT) || px.Implements(unmarshalerT) || x.Implements(textUnmarshalerT) || px.Implements(textUnmarshalerT) {
+			return true
+		}
+	}
+	return false
+}
+
 // SameNameClash: the struct types reachable from the given roots that share their String() with another,
 // distinct, reachable struct type.
 func SameNameClash(roots []reflect.Type) map[reflect.Type]bool {
